@@ -112,6 +112,14 @@ void vh_install_fault_handler(void);
 /* optional: describe a faulting address that is not in a guard arena; returns non-zero if described */
 extern int (*vh_fault_describe_hook)(const void *addr, char *buf, size_t n);
 
+/* ---------- definedness monitor (MSan build / memcheck with -DVH_VALGRIND; no-op elsewhere) ---------- */
+int vh_def_available(void);                              /* 1 if this build can test definedness */
+long vh_first_undef(const void *p, size_t n);            /* offset of first undefined byte, -1 if all defined / unavailable */
+void vh_make_undef(void *p, size_t n);                   /* mark memory as uninitialised */
+void vh_make_def(void *p, size_t n);
+/* report a violation "<current crash key>:undefined-<what>" if [p,p+n) is not fully defined; returns 1 if reported */
+int vh_check_defined(const char *what, const void *p, size_t n);
+
 /* stack painter: fills ~n bytes of stack below the caller with v */
 void vh_paint_stack(int v, size_t n);
 
